@@ -204,7 +204,7 @@ def image(truth, level, t0_ms=45296789, dt_ms=1, style=None, seed=0):
         if level == "1.1":
             r[SIGNAL_ACQ_US:SIGNAL_ACQ_US + 8] = struct.pack(">Q", (t % DAY_MS) * 1000 + 7)
         if style:
-            _style_prefix(r, i, n_px, level, style, prng)
+            _style_prefix(r, i, n_px, level, dict(style, n_lines=n_lines), prng)
             dates = style.get("dates", "normal")
             if (dates == "filler-first" and i == 0) or (dates == "filler-some"
                                                         and prng.random() < 0.3):
@@ -247,9 +247,34 @@ def _style_prefix(r, i, n_px, level, style, prng):
         if level == "1.1":
             r[UPDATE_FLAG_11:UPDATE_FLAG_11 + 4] = struct.pack(
                 ">I", (1 if i == 0 else 0) if flags == "first-line" else prng.randrange(2))
-    if style.get("numeric") == "varying":
+    numeric = style.get("numeric")
+    if numeric == "varying":
         for off in NUMERIC_FIELDS[level]:
             r[off:off + 4] = struct.pack(">I", prng.randrange(2**31))
+    elif numeric == "palette":
+        # few distinct values that come back after a change (A A B B A A ...): a parameter
+        # switched and switched back
+        k = (i // max(style.get("period", 2), 1)) % 2
+        for off in NUMERIC_FIELDS[level]:
+            r[off:off + 4] = struct.pack(">I", 1900000 + 200000 * k + off)
+    elif numeric == "on-update":
+        # parameters given only on the lines whose update flag is raised, zero on "repeat" lines
+        flag = 1 if i % max(style.get("period", 3), 1) == 0 else 0
+        r[128:132] = struct.pack(">I", flag)
+        for off in NUMERIC_FIELDS[level]:
+            r[off:off + 4] = struct.pack(">I", prng.randrange(1, 2**31) if flag else 0)
+    ln = style.get("line_numbers", "normal")
+    if ln != "normal":
+        n = style.get("n_lines", 1)
+        if ln == "descending":
+            v = n - i
+        elif ln == "restart":
+            v = i % max(style.get("period", 3), 1) + 1
+        elif ln == "offset":
+            v = i + 1001
+        else:
+            v = prng.randrange(1, 4 * n + 2)
+        r[12:16] = struct.pack(">I", v)
 
 
 def make_truth(level, lines, pixels, data_seed, mode, n_special):
@@ -426,7 +451,9 @@ def gen_plan(rng, max_lines=40, max_pixels=32, max_images=8, level=None, big=Fal
     plan["prefix"] = {
         "fill": rng.choice(["zero", "zero", "all-data", "consistent", "consistent", "inconsistent"]),
         "flags": rng.choice(["constant", "constant", "first-line", "last-line", "random"]),
-        "numeric": rng.choice(["zero", "varying", "varying"]),
+        "numeric": rng.choice(["zero", "varying", "varying", "palette", "on-update"]),
+        "period": rng.choice([1, 2, 3, 4, 8]),
+        "line_numbers": rng.choice(["normal"] * 6 + ["descending", "restart", "offset", "random"]),
         "dates": rng.choice(["normal"] * 5 + ["filler-first", "filler-some"]),
     }
     # acquisition time base: mostly mid-day, sometimes crossing midnight inside the image
